@@ -17,6 +17,7 @@ mod simdemo;
 mod simop;
 mod c19;
 mod c13;
+mod c12;
 mod scen;
 mod wirefmt;
 mod util;
@@ -39,7 +40,7 @@ pub fn exec_line(line: &str) -> Option<String> {
     if op == "decode" {
         return c01::exec(op, &mut t);
     }
-    if op == "sim" {
+    if op == "sim" || op == "sim2" {
         return simop::exec(op, &mut t);
     }
     if matches!(op, "rec-life" | "suppress" | "suppress-msg" | "cache-seq") {
@@ -85,6 +86,7 @@ fn main() {
                     "C16" => c16::generate(&mut rng, &tier, &mut emit),
                     "C19" => c19::generate(&mut rng, &tier, &mut emit),
                     "C13" => c13::generate(&mut rng, &tier, &mut emit),
+                    "C12" => c12::generate(&mut rng, &tier, &mut emit),
                     _ => {
                         eprintln!("unknown property {}", prop);
                         std::process::exit(2);
